@@ -50,10 +50,13 @@ FilterInDomain(d, f) ==
   /\ \A a, b \in T : a # b => ~(a < b /\ b <= MatchEnd(d, a))
 InDomain(d, fs) == WellFormed(d) /\ fs # <<>> /\ \A k \in 1..Len(fs) : FilterInDomain(d, fs[k])
 
-SpanHasSel(d, i) == \E x \in i..MatchEnd(d, i) : IsElem(d, x) /\ d[x].sel
-Acts(f, d, i) == CASE f.sel = "none" -> TRUE
-                   [] f.act = "replace" -> SpanHasSel(d, i)
-                   [] OTHER -> ~SpanHasSel(d, i)
+\* filters compose in order: a selector sees the document as the earlier filters left it (s = the current item
+\* sequence), so an element of the span that an earlier replace removed no longer counts
+SpanHasSel(f, d, s, i) == \E x \in i..MatchEnd(d, i) : IsElem(d, x) /\ d[x].sel /\ (f.sel = "x" \/ d[x].n = f.sel)
+                                                         /\ \E q \in 1..Len(s) : s[q] = <<x, 1>>
+Acts(f, d, s, i) == CASE f.sel = "none" -> TRUE
+                      [] f.act = "replace" -> SpanHasSel(f, d, s, i)
+                      [] OTHER -> ~SpanHasSel(f, d, s, i)
 
 \* apply filter k to the item sequence s (document units keep their lexeme identity)
 LexStart(s, i) == CHOOSE x \in 1..Len(s) : s[x] = <<i, 1>>
@@ -65,16 +68,16 @@ EmitF(d, f, k, T, s, x) ==
   ELSE LET u == s[x] IN
        IF u[1] = 0 THEN
           \* an inserted value of an earlier filter: inside a replaced span it disappears with the span
-          IF \E t \in T : Acts(f, d, t) /\ f.act = "replace" /\ \E a, b \in 1..Len(s) :
+          IF \E t \in T : Acts(f, d, s, t) /\ f.act = "replace" /\ \E a, b \in 1..Len(s) :
                 a < x /\ x < b /\ s[a][1] = t /\ s[b][1] = MatchEnd(d, t) /\ s[b][1] > 0
           THEN EmitF(d, f, k, T, s, x + 1)
           ELSE <<u>> \o EmitF(d, f, k, T, s, x + 1)
        ELSE LET i == u[1]
-                inRepl == \E t \in T : Acts(f, d, t) /\ f.act = "replace" /\ t <= i /\ i <= MatchEnd(d, t)
-                firstOfRepl == \E t \in T : Acts(f, d, t) /\ f.act = "replace" /\ t = i /\ u[2] = 1
-                pre == IF u[2] = 1 /\ \E t \in T : Acts(f, d, t) /\ f.act = "append" /\ IsOpen(d, t) /\ MatchEnd(d, t) = i
+                inRepl == \E t \in T : Acts(f, d, s, t) /\ f.act = "replace" /\ t <= i /\ i <= MatchEnd(d, t)
+                firstOfRepl == \E t \in T : Acts(f, d, s, t) /\ f.act = "replace" /\ t = i /\ u[2] = 1
+                pre == IF u[2] = 1 /\ \E t \in T : Acts(f, d, s, t) /\ f.act = "append" /\ IsOpen(d, t) /\ MatchEnd(d, t) = i
                        THEN <<<<0, k>>>> ELSE <<>>
-                post == IF u[2] = Len(d[i].us) /\ i \in T /\ Acts(f, d, i) /\ f.act = "prepend" THEN <<<<0, k>>>> ELSE <<>>
+                post == IF u[2] = Len(d[i].us) /\ i \in T /\ Acts(f, d, s, i) /\ f.act = "prepend" THEN <<<<0, k>>>> ELSE <<>>
             IN IF inRepl THEN (IF firstOfRepl THEN <<<<0, k>>>> ELSE <<>>) \o EmitF(d, f, k, T, s, x + 1)
                ELSE pre \o <<u>> \o post \o EmitF(d, f, k, T, s, x + 1)
 RECURSIVE RefFold(_,_,_,_)
